@@ -151,7 +151,16 @@ func caseC16(c *Ctx) {
 		if len(used) > 0 {
 			s.Cfg.Used = used
 			s.O.AllIDs = n <= 64 || c.Case%4 == 0
-			step(50)
+			step(35)
+			// the registry survives Reset: tables that did not exist before the reset must get every registered ID too
+			if c.Case%3 != 0 && !s.Failed() {
+				s.Do(&Op{K: "Reset"})
+				if !s.Failed() {
+					checkRegistry(s, "after Reset")
+				}
+				s.Cov.N["registry_histories_with_reset"]++
+			}
+			step(25)
 		}
 	}
 	// limit + 1, and registration in a locked world
